@@ -1,4 +1,5 @@
 pub mod dd;
 pub mod fl;
+pub mod int;
 pub mod mon;
 pub mod rng;
